@@ -19,7 +19,7 @@ def Out.render : Out → String
   | .err e => "e:" ++ e.name
 
 namespace FileOps
-variable {σ : Type u} (F : FileOps σ)
+variable {σ : Type} (F : FileOps σ)
 
 /-- one call; a raising call leaves the object as it was -/
 def step (s : σ) : Op → Out × σ
